@@ -43,3 +43,7 @@ def run(ctx):
     # that keep NaN out of split normals (C20's R-CENTROID) are part of "routed to itself"
     from props import C20
     C20.r_centroid(ctx)
+    # the writer computes margin(item, normal), the reader margin(normal, query): they agree only if the kernel both margins
+    # forward to pairs lane i of one operand with lane i of the other (C11's structural kernel clauses)
+    from props import C11
+    C11.structural(ctx)
